@@ -622,17 +622,25 @@ func (polyArea) Run(line string) string {
 		p = append(p, c)
 	}
 	rs := func(r geom.Rect[float64]) string { return gx.JoinF(r.X, r.Y, r.Width, r.Height) }
+	// the read-only operations must leave the polygon (a slice of slices, so mutable through the receiver) as it was
+	orig := polyStr(p)
+	untouched := func(out string) string {
+		if polyStr(p) != orig {
+			return out + " operand-changed"
+		}
+		return out
+	}
 	switch {
 	case f[1] == "ccontains" && len(head) == 2 && len(p) == 1:
-		return b2s(p[0].Contains(geom.NewPoint(head[0], head[1])))
+		return untouched(b2s(p[0].Contains(geom.NewPoint(head[0], head[1]))))
 	case f[1] == "cbounds" && len(head) == 0 && len(p) == 1:
-		return rs(p[0].Bounds())
+		return untouched(rs(p[0].Bounds()))
 	case f[1] == "pcontains" && len(head) == 2:
-		return b2s(p.Contains(geom.NewPoint(head[0], head[1])))
+		return untouched(b2s(p.Contains(geom.NewPoint(head[0], head[1]))))
 	case f[1] == "pevenodd" && len(head) == 2:
-		return b2s(p.ContainsEvenOdd(geom.NewPoint(head[0], head[1])))
+		return untouched(b2s(p.ContainsEvenOdd(geom.NewPoint(head[0], head[1]))))
 	case f[1] == "pbounds" && len(head) == 0:
-		return rs(p.Bounds())
+		return untouched(rs(p.Bounds()))
 	case f[1] == "ptransform" && len(head) == 6:
 		before := polyStr(p)
 		res := p.Transform(mat(head))
